@@ -27,6 +27,44 @@ def inflationMint (ySnapAmt ySnapTime pSnapAmt pSnapTime supply now : Int) (maxA
   let t := targetSupply pSnapAmt pSnapTime now rate period
   if t > supply then t - supply else 0
 
+/-! ### the inflation schedule over blocks (x/distributor/keeper/abci.go BeginBlocker / EndBlocker) -/
+structure InflCfg where
+  maxAnnual : Dec.D
+  rate : Dec.D
+  period : Int
+deriving Repr
+
+/-- native supply and the two stored supply snapshots (time 0 = not taken yet) -/
+structure Infl where
+  supply : Int
+  yAmt : Int
+  yTime : Int
+  pAmt : Int
+  pTime : Int
+deriving Repr, DecidableEq
+
+def year : Int := month * 12
+
+/-- BeginBlocker → AllocateTokens (not at height 1): the inflation mint -/
+def inflBegin (c : InflCfg) (s : Infl) (now : Int) (first : Bool) : Infl :=
+  if first then s else
+  { s with supply := s.supply + inflationMint s.yAmt s.yTime s.pAmt s.pTime s.supply now c.maxAnnual c.rate c.period }
+
+/-- EndBlocker: a snapshot that was never taken, or is older than its period, is re-taken AT THE CURRENT BLOCK TIME
+with the current supply -/
+def inflEnd (c : InflCfg) (s : Infl) (now : Int) : Infl :=
+  let s1 := if s.pTime = 0 ∨ s.pTime + c.period < now then { s with pTime := now, pAmt := s.supply } else s
+  if s1.yTime = 0 ∨ s1.yTime + year < now then { s1 with yTime := now, yAmt := s1.supply } else s1
+
+def inflBlock (c : InflCfg) (s : Infl) (now : Int) (first : Bool) : Infl := inflEnd c (inflBegin c s now first) now
+
+/-- a chain of blocks at the given times; the ghost log records (block time, supply at the end of the block) -/
+def inflRun (c : InflCfg) : Infl → List (Int × Int) → List Int → Infl × List (Int × Int)
+  | s, log, [] => (s, log)
+  | s, log, now :: rest =>
+    let s' := inflBlock c s now false
+    inflRun c s' ((now, s'.supply) :: log) rest
+
 /-! ### UBI hard cap in Go's uint64 arithmetic (`w` = 2^64 and `ys` = 31556952 are parameters) -/
 def mul64 (w a b : Nat) : Nat := (a * b) % w
 def add64 (w a b : Nat) : Nat := (a + b) % w
